@@ -441,6 +441,24 @@ pub fn directed(names: &[String]) -> Vec<Trace> {
         steps.push(rec("a change of several preferences in the preference files"));
         v.push(mk(format!("pref-files-change-{}", name), steps));
     }
+    // 2e. every documented value of the style preferences over expressions that stress the places where they are consulted
+    //     (number words for huge numbers, fractions, roots, powers, tables, sets, primes, chemistry); both speech styles
+    for style in pools::SPEECH_STYLES {
+        for (n, vals) in pools::CLEARSPEAK_VALUES {
+            let mut steps = vec![Step::Call(Op::SetRulesDir(MOUNT_A.into())), Step::Call(Op::SetPref("SpeechStyle".into(), style.to_string()))];
+            for val in vals.iter().chain(["Auto"].iter()) {
+                steps.push(Step::Call(Op::SetPref(n.to_string(), val.to_string())));
+                for e in [63usize, 61, 62, 10, 54, 11, 2, 7, 18, 59, 3, 55] {
+                    steps.push(Step::Call(Op::SetMathml(ExprRef::Pool(e))));
+                    steps.push(Step::Call(Op::Speech));
+                    steps.push(Step::Call(Op::Overview));
+                }
+                steps.push(Step::Call(Op::Cmd("ZoomIn".into())));
+                steps.push(Step::Call(Op::Cmd("DescribeCurrent".into())));
+            }
+            v.push(mk(format!("documented-values-{}-{}", style, n), steps));
+        }
+    }
     // 3. every preference name x value class (one trace per name; a panic anywhere is the violation)
     let values = ["true", "FALSE", "1.5", "NaN", "", " ", "Auto", "maybe", "\u{a0}", "0", "-1e400", "[]"];
     for n in names.iter().chain(["NoSuchPref".to_string(), "".to_string()].iter()) {
